@@ -375,9 +375,9 @@ func (a *iscAnalysis) interpretCase(cc *ast.CaseClause, label string, pkg *packa
 						x, y := c.c.Args[i], c.c.Args[1-i]
 						if y.Op == "nil" {
 							if x.Op == "proj" {
-								checked[x.Args[0].String()] = true
+								checked[x.Args[0].Key()] = true
 							} else {
-								checked[x.String()] = true
+								checked[x.Key()] = true
 							}
 						}
 					}
@@ -406,7 +406,7 @@ func (a *iscAnalysis) interpretCase(cc *ast.CaseClause, label string, pkg *packa
 					continue
 				}
 				if libc != nil {
-					if !checked[libc.String()] {
+					if !checked[libc.Key()] {
 						pc.problems = append(pc.problems, fmt.Sprintf("field %s uses the result of %s without testing its error", fv.Hint, libc.S))
 					} else {
 						pc.libCalls++
